@@ -137,9 +137,12 @@ def d3(cx: Cx, ob: Ob) -> None:
                 break
     # decision table on the number of matches
     matched = None
+    matcheds: list = []
     for ev, _ in s.walk():
         if ev.kind == "bind" and self_call(ev.b, me, "_match_record"):
             matched = ev.b
+            if ev.b not in matcheds:
+                matcheds.append(ev.b)
             if not (ev.b[2][:1] and is_incoming(ev.b[2][0])):
                 ob.violate(fn.qualname, where(fn, ev.line), "_match_record is not applied to the incoming record", detail="match-arg")
             elif ev.b[2][0] != ("param", "record"):
@@ -163,6 +166,8 @@ def d3(cx: Cx, ob: Ob) -> None:
         ob.undecide("add_record does not call _match_record")
         return
     lenm = ("call", ("builtin", "len"), (matched,), ())
+    # the same scan on another version of the incoming record (as given / a copy made first): one quantity
+    lenms = [("call", ("builtin", "len"), (m_,), ()) for m_ in matcheds]
     # "nothing can match" established from the lookup tables instead of the scan: with exact comparison
     # (case_sensitive) a record matches an existing one only through a name both list; when the incoming record's
     # prefix is in no CURIE-side table, its URI prefix in no URI-side table and it brings no synonyms, no name is
@@ -194,14 +199,14 @@ def d3(cx: Cx, ob: Ob) -> None:
             for g in ctx.guards:
                 if g.kind != "guard":
                     continue
-                if g.a == ("cmp", "==", lenm, ("const", 1)) and g.b is False:
+                if any(g.a == ("cmp", "==", l_, ("const", 1)) for l_ in lenms) and g.b is False:
                     ok = True
-                if g.a == matched and g.b is False:
+                if g.a in matcheds and g.b is False:
                     ok = True
-                if g.a == ("cmp", "==", lenm, ("const", 0)) and g.b is True:
+                if any(g.a == ("cmp", "==", l_, ("const", 0)) for l_ in lenms) and g.b is True:
                     ok = True
-            more = any(g.kind == "guard" and g.a == ("cmp", ">", lenm, ("const", 1)) and g.b is False for g in ctx.guards) or any(
-                g.kind == "guard" and g.a in (("cmp", "==", lenm, ("const", 0)), matched) for g in ctx.guards
+            more = any(g.kind == "guard" and any(g.a == ("cmp", ">", l_, ("const", 1)) for l_ in lenms) and g.b is False for g in ctx.guards) or any(
+                g.kind == "guard" and (g.a in matcheds or any(g.a == ("cmp", "==", l_, ("const", 0)) for l_ in lenms)) for g in ctx.guards
             )
             if not (ok and more):
                 ob.violate(fn.qualname, where(fn, ev.line), "a new record is appended on a path that does not exclude an existing match", witness=describe_path(ctx), detail="append-guard")
@@ -217,15 +222,15 @@ def d3(cx: Cx, ob: Ob) -> None:
     atoms = path_atoms(s.paths)
 
     def meaning(a):
-        if a == matched:
+        if a in matcheds:
             return lambda n, mg: n > 0
         if a == ("param", "merge"):
             return lambda n, mg: mg
-        if op(a) == "cmp" and a[1] in ("==", "<", "<=", ">", ">=") and ((a[2] == lenm and is_const(a[3]) and isinstance(a[3][1], int)) or (a[3] == lenm and is_const(a[2]) and isinstance(a[2][1], int))):
+        if op(a) == "cmp" and a[1] in ("==", "<", "<=", ">", ">=") and ((a[2] in lenms and is_const(a[3]) and isinstance(a[3][1], int)) or (a[3] in lenms and is_const(a[2]) and isinstance(a[2][1], int))):
             import operator as _o
 
             f = {"==": _o.eq, "<": _o.lt, "<=": _o.le, ">": _o.gt, ">=": _o.ge}[a[1]]
-            if a[2] == lenm:
+            if a[2] in lenms:
                 k = a[3][1]
                 return lambda n, mg: f(n, k)
             k = a[2][1]
